@@ -35,14 +35,24 @@ class StepShape:
                 d = c.term.dest
                 if d.is_local():
                     self.T = d.local
-        # processing loop: the `next` call whose iterator derives from T
+        # in-place form: `self.queue.shuffle(rng); for .. in self.queue.drain(..)` - the batch is the queue field itself, emptied by
+        # the full-range drain the loop consumes (dropping a Drain removes whatever was not iterated)
+        self.in_place = False
+        if self.take is None:
+            for c in q.calls("drain"):
+                if len(c.args) == 2 and field_chain(c.args[0])[0][0] == "param" and len(field_chain(c.args[0])[1]) == 1 and "RangeFull" in render(c.args[1]) \
+                        and "Vec" in (c.resolved or ""):
+                    self.take = c
+                    self.queue_field = field_chain(c.args[0])[1][0]
+                    self.in_place = True
+        # processing loop: the `next` call whose iterator derives from the batch
         self.loop_next = None
         self.chain = None
         for c in q.calls("next"):
             if not q.cfg.in_loop(c.b):
                 continue
             ch = self.iter_chain(c)
-            if ch is not None and self.T is not None and ch[-1] == ("local", self.T):
+            if ch is not None and self.has_batch() and self.is_batch(ch[-1]):
                 self.loop_next = c
                 self.chain = ch[:-1]
         self.head = None
@@ -58,6 +68,25 @@ class StepShape:
         self.process = [c for c in q.calls("process_event") if on_obj(c)]
         self.resets = [c for c in q.calls(("reset_trade_vol", "reset_trade_vols")) if on_obj(c)]
         self.shuffles = [c for c in q.calls() if c.name in ("shuffle", "partial_shuffle", "choose_multiple", "choose")]
+
+    def has_batch(self):
+        return self.T is not None or self.in_place
+
+    def is_batch(self, e):
+        """does e denote the batch of instructions this step processes (the local the queue was taken into, or - in-place form -
+        the queue field itself)?"""
+        if e is None:
+            return False
+        if self.T is not None:
+            return e == ("local", self.T)
+        if self.in_place:
+            e = strip(e)
+            root, names = field_chain(e)
+            return root[0] == "param" and names == [self.queue_field] and fld(e, self.queue_field)
+        return False
+
+    def mentions_batch(self, e):
+        return self.is_batch(e) or (isinstance(e, tuple) and e and e[0] != "const" and any(self.is_batch(y) for y in walk(e) if isinstance(y, tuple)))
 
     def iter_chain(self, next_call):
         """names of the adapter calls between the iterated collection and `next`: returns
@@ -81,15 +110,20 @@ class StepShape:
             e = strip(q.ev.rvalue(st.rv, (d[1], d[2])))
         names = []
         self.zip_partner = None
-        while e[0] == "call" and e[2] and (e[4] in ADAPTERS or e[4] in ("into_iter", "iter", "iter_mut", "enumerate", "by_ref")):
+        while e[0] == "call" and e[2] and (e[4] in ADAPTERS or e[4] in ("into_iter", "iter", "iter_mut", "enumerate", "by_ref") or
+                                           (self.in_place and e[4] == "drain" and len(e[2]) == 2 and self.is_batch(e[2][0]) and "RangeFull" in render(e[2][1]))):
+            if e[4] == "drain":
+                names.append("into_iter")     # the full-range drain yields every element, front to back, by value
+                e = e[2][0]
+                continue
             names.append(e[4])
-            if e[4] == "zip" and len(e[2]) == 2 and self.T is not None:
+            if e[4] == "zip" and len(e[2]) == 2 and self.has_batch():
                 # `clock_values.zip(batch)`: the batch may be either operand; remember the other one and which tuple
                 # component carries the batch item
                 def leads_to_T(x):
                     while x[0] == "call" and x[2] and x[4] in ("into_iter", "iter", "iter_mut", "by_ref"):
                         x = x[2][0]
-                    return x == ("local", self.T)
+                    return self.is_batch(x)
                 if not leads_to_T(e[2][0]) and leads_to_T(e[2][1]):
                     self.zip_partner = (e[2][0], "1")
                     e = e[2][1]
@@ -125,11 +159,14 @@ def benign_batch_guard(atom, T, for_shuffle=False):
     """a condition on the taken batch `T` under which skipping the guarded code changes nothing:
     `!T.is_empty()` / `T.len() > 0` / `T.len() != 0` (an empty batch has nothing to process and nothing to shuffle), and for
     the shuffle alone also `T.len() > 1` / `T.len() >= 2` (rand 0.8.5 draws nothing for fewer than two elements)."""
-    tl = ("local", T)
+    if isinstance(T, StepShape):
+        is_b = T.is_batch
+    else:
+        is_b = lambda e: e == ("local", T)  # noqa: E731
 
     def is_len(e):
-        return e[0] == "call" and e[4] == "len" and e[2] and e[2][0] == tl
-    if atom[0] == "bool" and atom[2] is False and atom[1][0] == "call" and atom[1][4] == "is_empty" and atom[1][2] and atom[1][2][0] == tl:
+        return e[0] == "call" and e[4] == "len" and e[2] and is_b(e[2][0])
+    if atom[0] == "bool" and atom[2] is False and atom[1][0] == "call" and atom[1][4] == "is_empty" and atom[1][2] and is_b(atom[1][2][0]):
         return True
     if atom[0] == "cmp" and is_len(atom[2]) and atom[3][0] == "const":
         k = atom[3][3]
